@@ -33,6 +33,21 @@ fn seed_line(text: &'static str) -> BoxedStrategy<String> {
     (0usize..lines.len()).prop_map(move |i| lines[i].to_string()).boxed()
 }
 
+/// a package name with characters whose lower / upper case form has a different UTF-8 length
+/// (or is several characters) directly in front of, inside or behind the markers a parser looks
+/// for ('-', "nb", operators): an offset computed in a case-mapped copy does not fit the original
+fn case_fold_name() -> BoxedStrategy<String> {
+    let fold = || prop::sample::select(vec!["\u{130}", "\u{212a}", "\u{1e9e}", "\u{df}", "\u{17f}", "\u{149}", "\u{23a}", "\u{23e}", "\u{1f0}", "\u{fb01}", "\u{2126}", "\u{390}", "\u{e9}", "\u{ff21}"]);
+    (
+        prop::sample::select(vec!["pkg-", "pkg-1.0", "p", "pkg>=1.0", "a-b-2", "pkg-1.0nb1", ""]),
+        prop::collection::vec(fold(), 1..4),
+        prop::sample::select(vec!["nb", "nb3", "NB1", "nbx", "", "-1.0nb1", ">=1nb2", "rc1", "alpha", ".1", "-[0-9]*", "{,nb1}"]),
+        prop::option::weighted(0.3, fold()),
+    )
+        .prop_map(|(a, mid, b, tail)| format!("{}{}{}{}", a, mid.concat(), b, tail.unwrap_or("")))
+        .boxed()
+}
+
 fn arbitrary_bytes() -> BoxedStrategy<Vec<u8>> {
     prop_oneof![
         3 => prop::collection::vec(any::<u8>(), 0..64),
@@ -147,7 +162,7 @@ fn grammar(target: &'static str) -> BoxedStrategy<Vec<u8>> {
                 1 => (vergen::tokens(3), vergen::tokens(3)).prop_map(|(a, b)| format!("p>={}<{}", a.concat(), b.concat())),
                 1 => "[a-c*?\\[\\]!0-9-]{0,10}",
             ];
-            let name = || prop_oneof![3 => seed_line(SEED_PKGNAMES), 2 => vergen::tokens(6).prop_map(|v| format!("pkg-{}", v.concat())), 1 => "[a-c0-9.-]{0,8}"];
+            let name = || prop_oneof![3 => seed_line(SEED_PKGNAMES), 2 => vergen::tokens(6).prop_map(|v| format!("pkg-{}", v.concat())), 1 => "[a-c0-9.-]{0,8}", 1 => case_fold_name()];
             // correlated: the bound and the candidates' versions are edits of one token list (the
             // decision then falls on one differing component - a huge number against a modifier ...)
             let correlated = (prop::sample::select(vec![">=", ">", "<", "<="]), vergen::pair(8), vergen::pair(6), any::<bool>()).prop_map(|(op, (a, b), (c, _), two)| {
@@ -166,6 +181,7 @@ fn grammar(target: &'static str) -> BoxedStrategy<Vec<u8>> {
                 2 => (seed_line(SEED_PKGDEPS), prop::sample::select(vec!["../../cat/pkg", "cat/pkg", "../cat", "", "a/b/c", "..//..//x//y//"])).prop_map(|(p, q)| format!("{}:{}", p, q)),
                 2 => prop::sample::select(vec!["../../cat/pkg", "cat/pkg", "./a/b", "/a/b", "a/../b", "..", "a//b/", "../../a/b/."]).prop_map(String::from),
                 1 => vergen::tokens(6).prop_map(|v| format!("x-{}nb{}", v.concat(), v.len())),
+                1 => case_fold_name(),
             ],
             1..6,
         )
